@@ -192,7 +192,7 @@ func (s *Schema) ValidateData(data []byte) error {
 		err error
 	)
 
-	if !bytes.HasPrefix(bytes.TrimSpace(data), []byte{'{'}) {
+	if !bytes.HasPrefix(bytes.TrimSpace(data), []byte{'{'}) || !json.Valid(data) {
 		err = yaml.Unmarshal(data, &any, useNumber)
 		if err != nil {
 			return fmt.Errorf("failed to YAML unmarshal data for validation: %w", err)
